@@ -2218,6 +2218,8 @@ func main() {
 	}
 	// the stateful engine (storage state machine) writes <out>/TransStorage.lean
 	writeStateful(*out)
+	// the slab engine (array slab restructuring) writes <out>/TransSlabs.lean
+	writeSlabs(*out)
 	path := filepath.Join(*out, "Trans.lean")
 	content := b.String()
 	if old, err := os.ReadFile(path); err == nil && string(old) == content {
